@@ -51,7 +51,7 @@ class Rig:
     # ---- serving application
     def _seed(self):
         self.n_seed += 1
-        s = self.ex.fresh_int('seed%d' % self.n_seed, 1, 0xFFFE)
+        s = self.ex.fresh_int('seed%d' % self.n_seed, 0, 0xFFFF)    # every 16-bit seed, boundaries 0x0000 and 0xFFFF included
         self.seeds.append(s)
         return s
 
